@@ -205,7 +205,7 @@ def sources(f: int, x: int, bad: int, enc: int) -> bool:
 
 CONDITIONS = [
     {'fn': 'sinks', 'slices': list(range(len(values.MODELS))), 'quick': 240,
-     'thorough': 300,
+     'thorough': 600,
      'bound': 'one slice per class model: every alternative of every factor '
               '(x 3 option sets for the first six); YAML and JSON; str path, Path, text stream '
               '(StringIO and open files encoded as Latin-1 and '
@@ -213,7 +213,7 @@ CONDITIONS = [
     {'fn': 'sinks_reach', 'slices': [0], 'quick': 60, 'thorough': 60,
      'expect': 'REFUTED', 'bound': 'reachability twin'},
     {'fn': 'sources', 'slices': list(range(len(values.MODELS))),
-     'quick': 240, 'thorough': 400,
+     'quick': 240, 'thorough': 600,
      'bound': 'one slice per class model: the dumped text of every '
               'alternative, and 12 invalid/odd documents (x 3 encodings of '
               'the binary stream for the first three); str, Path, StringIO, BytesIO, open text '
